@@ -98,3 +98,14 @@ Proof. vm_compute. split; reflexivity. Qed.
    no body at all, so nothing is durable *)
 Example drained_ex : s_items (fst (run_history cfg2 store0 (h_refill ++ drains 3 3))) = [].
 Proof. vm_compute. reflexivity. Qed.
+
+(* the retry theorems' hypotheses are satisfiable: two retryable failures, Shutdown while the second
+   attempt is in the export call (2 attempts started): the Send ends as "stopped" after exactly 2 attempts and
+   the queue sees a shutdown error; without a Shutdown the same Send ends by its context *)
+Example retry_ex :
+  send_model [ARetryable; ARetryable] (Some 2) SendCtxDone 0 = (SendStopped, 2) /\
+  send_model [ARetryable; ARetryable] (Some 0) SendCtxDone 0 = (SendStopped, 1) /\
+  send_model [ARetryable; ARetryable] None SendCtxDone 0 = (SendCtxDone, 2) /\
+  send_model [ARetryable] (Some 0) SendNoMoreRetries 0 = (SendNoMoreRetries, 1) /\
+  outcome_of_send (fst (send_model [ARetryable; ARetryable] (Some 2) SendCtxDone 0)) = OShutdown.
+Proof. vm_compute. repeat split; reflexivity. Qed.
